@@ -3,6 +3,11 @@ import TinsModel.Reassembly.WireUpper
 import TinsModel.Reassembly.Policy
 import Driver.Util
 /- line-protocol driver for IPv4 reassembly (C08): model mode and spec (oracle) mode.
+   The oracle is three references side by side, each fed the implementation's own output: (1) `specStep0`, the
+   datagram-aware reference of Reassembly/Spec.lean, decides the cases inside the property's hypothesis (`unspecified`
+   outside); (2) history-level safety clauses (`safetyPkt`: REASSEMBLED only from an exact cover of arrived fragments of
+   that key, shape of the corrupt path, stream count from the implementation's own reports) and (3) the policy reference
+   of Reassembly/Policy.lean (`polProcess`: expected line of every call of every history).
    ops:  case | dgram <tag> <id> <src> <dst> <proto> <tos> <df> <nopt> <hex> <lens,…> | frag <tag> <off> <len> <mf> <ttl> <eth>
          | whole <tag> <ttl> <eth> | nonip | remove <id> <src> <dst> | clear -/
 namespace Driver.C08
